@@ -1,6 +1,7 @@
 import Qhttp.Model.FsHandler
 import Qhttp.Model.Http
 import Qhttp.Props.C01
+import Qhttp.Lemmas.FsWalk
 /-
   C07 — files are served only from inside the document root.
 -/
@@ -71,5 +72,226 @@ def holds (fe : FsEnv) (path : Bytes) (complete : Bool) (obs : List Obs) : Bool 
             else true)
        | none => true
      else true)
+
+/-! ## Theorems
+
+  The file system `t : Fs.Tree` is a parameter everywhere; `path` is ANY byte string (the
+  result of whatever decoding happened before); the document root ranges over the decidable
+  class `Fs.CleanAbs` (absolute spellings without a `..` segment: repeated / trailing slashes
+  and `.` segments are allowed; `Fs.StrictCleanAbs`, i.e. `/` or `/name/…/name`, is a subclass).
+  `Fs.locOf root` is the list of the root's names (for the strict class: its non-empty
+  segments, `locOf_strict`).  Helper lemmas: `Qhttp/Lemmas/Fs{Segs,Stack,Paths,Walk}.lean`. -/
+
+open Fs in
+/-- 1. containment: whatever `served` returns lies inside the document root, segment-wise
+    (so `/r/rootx` is not inside `/r/root`). -/
+theorem contained (t : Fs.Tree) (root path : Bytes) (hr : Fs.CleanAbs root = true)
+    {loc : List Bytes} (h : Fs.served t root path = some loc) : Fs.locOf root <+: loc := by
+  cases hp : isAbs path with
+  | false =>
+    rw [(served_rel_eq t hr hp h).1]
+    exact List.prefix_append _ _
+  | true =>
+    obtain ⟨hpre, hloc⟩ := served_abs_eq t hr hp h
+    by_cases hne : locOf root = []
+    · rw [hne]; exact List.nil_prefix
+    · rw [hloc hne]; exact hpre
+
+/-- the same with the executable `inside` used by `holds` -/
+theorem contained_inside (t : Fs.Tree) (root path : Bytes) (hr : Fs.CleanAbs root = true)
+    {loc : List Bytes} (h : Fs.served t root path = some loc) : inside (Fs.locOf root) loc = true :=
+  List.isPrefixOf_iff_prefix.2 (contained t root path hr h)
+
+/-- where exactly: for a relative request path the served location is the root's location
+    followed by the lexically cleaned request segments, which do not begin with `..` -/
+theorem served_rel (t : Fs.Tree) (root path : Bytes) (hr : Fs.CleanAbs root = true)
+    (hp : Fs.isAbs path = false) {loc : List Bytes} (h : Fs.served t root path = some loc) :
+    loc = Fs.locOf root ++ Fs.normStack [] (Fs.segs path) ∧
+      (Fs.normStack [] (Fs.segs path)).head? ≠ some Fs.DOTDOT :=
+  Fs.served_rel_eq t hr hp h
+
+/-- key lemma (a) restated here: a successful kernel resolution is the lexical normalisation -/
+theorem resolve_lexical (t : Fs.Tree) (abs : Bytes) {loc : List Bytes}
+    (h : Fs.resolve t abs = some loc) : loc = Fs.lexical [] (Fs.segs abs) :=
+  Fs.walk_lexical t [] _ loc h
+
+/-- the location `holds` measures against (`rootLoc`: where the stored root resolves) is
+    `locOf root` whenever the root exists -/
+theorem rootLoc_eq (fe : FsEnv) (hr : Fs.CleanAbs fe.root = true) {l : List Bytes}
+    (h : rootLoc fe = some l) : l = Fs.locOf fe.root := by
+  have := Fs.walk_lexR fe.tree [] _ l h
+  rw [this, Fs.lexR_storedRoot hr, List.reverse_reverse]
+
+/-- `plain` paths consist of names only -/
+theorem plain_allNames {p : Bytes} (h : plain p = true) : Fs.allNames p = true := by
+  unfold plain at h
+  simp only [Bool.and_eq_true, List.all_eq_true] at h
+  apply Fs.allNames_iff.2
+  intro s hs
+  have := h.2 s hs
+  apply Fs.isName_iff.2
+  obtain ⟨⟨⟨⟨h1, h2⟩, h3⟩, _⟩, _⟩ := this
+  refine ⟨?_, by simpa using h2, by simpa using h3⟩
+  intro e; subst e; simp at h1
+
+open Fs in
+/-- 2. reachability, kernel form: if the plain relative path resolves (every intermediate
+    component is a directory) to the location `root ++ path`, it is served. -/
+theorem reachable (t : Fs.Tree) (root path : Bytes) (hpl : plain path = true)
+    (hres : Fs.resolve t (Fs.absoluteFilePath root path) = some (Fs.locOf root ++ Fs.segs path)) :
+    Fs.served t root path = some (Fs.locOf root ++ Fs.segs path) := by
+  have hn := plain_allNames hpl
+  rw [served_some_iff]
+  refine ⟨hres, ?_⟩
+  rw [relativeFilePath_rel root (allNames_not_abs hn)]
+  apply (rel_accepted_iff (allNames_not_abs hn)).2
+  rw [allNames_normStack hn]
+  cases hs : segs path with
+  | nil => simp
+  | cons x l =>
+    have := allNames_iff.1 hn x (by rw [hs]; simp)
+    simp only [List.head?_cons, ne_eq, Option.some.injEq]
+    exact (isName_iff.1 this).2.2
+
+open Fs in
+/-- on a prefix-closed tree (every listed location has its ancestors listed as directories),
+    existence of `root ++ path` is enough for the kernel resolution to succeed -/
+theorem resolve_of_exists (t : Fs.Tree) (root path : Bytes) (ht : Fs.treeClosed t = true)
+    (hr : Fs.CleanAbs root = true) (hn : Fs.allNames path = true) {k : Fs.Kind}
+    (hk : Fs.kindAt t (Fs.locOf root ++ Fs.segs path) = some k) :
+    Fs.resolve t (Fs.absoluteFilePath root path) = some (Fs.locOf root ++ Fs.segs path) := by
+  obtain ⟨pre, hseg, hdd, hpre⟩ :=
+    segs_absoluteFilePath hr (allNames_ne_nil hn) (allNames_not_abs hn)
+  have hlen : 0 < (segs path).length := by
+    cases hs : segs path with
+    | nil => exact absurd hs (segs_ne_nil path)
+    | cons x l => simp
+  unfold resolve
+  rw [hseg, walk_dirs t [] pre (segs path) hdd (by
+    intro n hle
+    rw [hpre] at hle ⊢
+    have := kindAt_prefix_dir ht hk (n := n) (by simp; omega)
+    rw [List.take_append_of_le_length hle] at this
+    simpa using this)]
+  rw [hpre, List.append_nil]
+  have := walk_names t (locOf root).reverse (segs path) k (allNames_iff.1 hn)
+    (by
+      intro n hlt
+      rw [List.reverse_reverse]
+      have := kindAt_prefix_dir ht hk (n := (locOf root).length + n) (by simp; omega)
+      rw [List.take_append, List.take_of_length_le (by omega)] at this
+      simpa using this)
+    (by rw [List.reverse_reverse]; exact hk)
+  rw [this, List.reverse_reverse]
+
+/-- 2'. reachability, existence form: on a prefix-closed tree every existing file or directory
+    inside the root is served under its plain relative path. -/
+theorem reachable_exists (t : Fs.Tree) (root path : Bytes) (ht : Fs.treeClosed t = true)
+    (hr : Fs.CleanAbs root = true) (hpl : plain path = true) {k : Fs.Kind}
+    (hk : Fs.kindAt t (Fs.locOf root ++ Fs.segs path) = some k) :
+    Fs.served t root path = some (Fs.locOf root ++ Fs.segs path) :=
+  reachable t root path hpl (resolve_of_exists t root path ht hr (plain_allNames hpl) hk)
+
+/-- 3a. `cleanPath` is idempotent -/
+theorem cleanPath_idem (p : Bytes) : Fs.cleanPath (Fs.cleanPath p) = Fs.cleanPath p :=
+  Fs.cleanPath_idem' p
+
+open Fs in
+/-- 3b. a cleaned path is `.`, `/`, or (after the leading slash of an absolute path) a slash-
+    separated list of segments none of which is empty or `.`, with `..` only as a leading run
+    (`isNF`); absoluteness is preserved -/
+theorem cleanPath_no_dot (p : Bytes) (hp : p ≠ []) :
+    Fs.isAbs (Fs.cleanPath p) = Fs.isAbs p ∧
+    ((Fs.cleanPath p = Fs.DOT ∧ Fs.isAbs p = false) ∨ (Fs.cleanPath p = [47] ∧ Fs.isAbs p = true) ∨
+     Fs.isNF (Fs.segs (if Fs.isAbs p then (Fs.cleanPath p).drop 1 else Fs.cleanPath p)) = true) := by
+  have hnf := NF_iff.1 (normStack_nil_NF (segs p))
+  have hel := normStack_segs_elems p
+  cases habs : isAbs p with
+  | true =>
+    rw [cleanPath_abs habs]
+    refine ⟨by simp [isAbs, SLASH], ?_⟩
+    cases hst : normStack [] (segs p) with
+    | nil => right; left; exact ⟨rfl, rfl⟩
+    | cons x l =>
+      right; right
+      rw [← hst]
+      simp only [if_true, List.drop_succ_cons, List.drop_zero]
+      rw [segs_joinSegs (by rw [hst]; simp) (fun s hs => (hel s hs).2)]
+      exact hnf
+  | false =>
+    refine ⟨cleanPath_rel_isAbs habs, ?_⟩
+    rw [cleanPath_rel hp habs]
+    split
+    · left; exact ⟨rfl, rfl⟩
+    · rename_i he
+      right; right
+      simp only [Bool.false_eq_true, if_false]
+      rw [segs_joinSegs (by intro e; rw [e] at he; exact he rfl) (fun s hs => (hel s hs).2)]
+      exact hnf
+
+/-- the class of roots is not empty and contains the spellings the property names -/
+example : Fs.CleanAbs (lit ['/','r','/','r','o','o','t']) = true := by decide
+example : Fs.StrictCleanAbs (lit ['/','r','/','r','o','o','t']) = true := by decide
+example : Fs.CleanAbs (lit ['/','r','/','r','o','o','t','/']) = true := by decide
+example : Fs.CleanAbs (lit ['/','r','/','.','/','r','o','o','t']) = true := by decide
+example : Fs.CleanAbs (lit ['/']) = true := by decide
+example : Fs.CleanAbs (lit ['/','r','/','.','.','/','r']) = false := by decide
+example : Fs.locOf (lit ['/','r','/','.','/','r','o','o','t','/']) = [lit ['r'], lit ['r','o','o','t']] := by decide
+
+/-! ### 4. non-vacuity on a concrete tree
+
+  `/r/secret`, `/r/rootx/s` (sibling whose name extends the root's), `/r/root/{in, sub/deep.txt}` -/
+
+def exTree : Fs.Tree :=
+  [ ([lit ['r']], .dir),
+    ([lit ['r'], lit ['s','e','c','r','e','t']], .file),
+    ([lit ['r'], lit ['r','o','o','t','x']], .dir),
+    ([lit ['r'], lit ['r','o','o','t','x'], lit ['s']], .file),
+    ([lit ['r'], lit ['r','o','o','t']], .dir),
+    ([lit ['r'], lit ['r','o','o','t'], lit ['i','n']], .file),
+    ([lit ['r'], lit ['r','o','o','t'], lit ['s','u','b']], .dir),
+    ([lit ['r'], lit ['r','o','o','t'], lit ['s','u','b'], lit ['d','e','e','p','.','t','x','t']], .file) ]
+
+def exRoot : Bytes := lit ['/','r','/','r','o','o','t']
+
+example : Fs.treeClosed exTree = true := by decide
+-- the requests that clean to the parent, and would resolve to it:
+example : Fs.resolve exTree (Fs.absoluteFilePath exRoot (lit ['.','.'])) = some [lit ['r']] := by decide
+example : Fs.served exTree exRoot (lit ['.','.']) = none := by decide
+example : Fs.served exTree exRoot (lit ['s','u','b','/','.','.','/','.','.']) = none := by decide
+example : Fs.served exTree exRoot (lit ['.','.','/']) = none := by decide
+example : Fs.served exTree exRoot (lit ['.','.','/','.']) = none := by decide
+example : Fs.served exTree exRoot (lit ['.','.','/','/']) = none := by decide
+-- the sibling whose name extends the root's name, relative and absolute
+example : Fs.resolve exTree (Fs.absoluteFilePath exRoot (lit ['.','.','/','r','o','o','t','x','/','s'])) =
+    some [lit ['r'], lit ['r','o','o','t','x'], lit ['s']] := by decide
+example : Fs.served exTree exRoot (lit ['.','.','/','r','o','o','t','x','/','s']) = none := by decide
+example : Fs.served exTree exRoot (lit ['/','r','/','r','o','o','t','x','/','s']) = none := by decide
+example : Fs.served exTree exRoot (lit ['/','r','/','s','e','c','r','e','t']) = none := by decide
+example : Fs.served exTree exRoot (lit ['/','r']) = none := by decide
+example : Fs.served exTree exRoot (lit ['/']) = none := by decide
+-- inside the root
+example : Fs.served exTree exRoot (lit ['s','u','b','/','d','e','e','p','.','t','x','t']) =
+    some [lit ['r'], lit ['r','o','o','t'], lit ['s','u','b'], lit ['d','e','e','p','.','t','x','t']] := by decide
+example : Fs.served exTree exRoot (lit ['s','u','b','/','.','.','/','i','n']) =
+    some [lit ['r'], lit ['r','o','o','t'], lit ['i','n']] := by decide
+example : Fs.served exTree exRoot (lit ['/','r','/','r','o','o','t','/','i','n']) =
+    some [lit ['r'], lit ['r','o','o','t'], lit ['i','n']] := by decide
+example : Fs.served exTree exRoot [] = some [lit ['r'], lit ['r','o','o','t']] := by decide
+-- other spellings of the same root
+example : Fs.served exTree (lit ['/','r','/','r','o','o','t','/']) (lit ['.','.']) = none := by decide
+example : Fs.served exTree (lit ['/','r','/','.','/','r','o','o','t','/']) (lit ['s','u','b','/','d','e','e','p','.','t','x','t']) =
+    some [lit ['r'], lit ['r','o','o','t'], lit ['s','u','b'], lit ['d','e','e','p','.','t','x','t']] := by decide
+-- the hypotheses of `reachable_exists` on a concrete input
+example : plain (lit ['s','u','b','/','d','e','e','p','.','t','x','t']) = true ∧
+    Fs.kindAt exTree (Fs.locOf exRoot ++ Fs.segs (lit ['s','u','b','/','d','e','e','p','.','t','x','t'])) = some .file := by
+  decide
+-- validation of the cleanPath sub-model against the Qt observations of DESIGN.md
+example : Fs.cleanPath (lit ['s','u','b','/','.','.']) = lit ['.'] := by decide
+example : Fs.cleanPath (lit ['s','u','b','/','.','.','/','.','.']) = lit ['.','.'] := by decide
+example : Fs.cleanPath (lit ['a','/','.','.','/','.','.','/','x']) = lit ['.','.','/','x'] := by decide
+example : Fs.cleanPath (lit ['/','a','/','.','.','/','.','.']) = lit ['/','.','.'] := by decide
+example : Fs.relativeFilePath exRoot (lit ['/','r','/','r','o','o','t','x','/','s']) = lit ['.','.','/','r','o','o','t','x','/','s'] := by decide
+example : Fs.relativeFilePath exRoot (lit ['/','r','/','r','o','o','t']) = lit ['.'] := by decide
 
 end Qhttp.C07
